@@ -38,12 +38,16 @@ IndexOf(s, x) == (CHOOSE i \in 1..Len(s) : s[i] = x /\ \A j \in 1..(i - 1) : s[j
 
 St0 == [lst |-> <<>>, corrupt |-> FALSE, cyclic |-> FALSE]
 
+(* list indexing as Python has it: a negative index counts from the end; the position it names (0-based), valid when 0 <= Pos < Len *)
+Pos(L, i) == IF i < 0 THEN i + Len(L) ELSE i
+InRange(L, i) == Pos(L, i) >= 0 /\ Pos(L, i) < Len(L)
+
 NewLst(s, e) ==
   CASE e.op = "new"     -> e.items
     [] e.op = "append"  -> Append(s.lst, e.x)
     [] e.op = "iadd"    -> IF "self" \in DOMAIN e /\ e.self THEN s.lst \o s.lst ELSE s.lst \o e.xs      \* c += c doubles the list
-    [] e.op = "setitem" -> IF e.i < Len(s.lst) THEN [s.lst EXCEPT ![e.i + 1] = e.x] ELSE s.lst
-    [] e.op = "delitem" -> IF e.i < Len(s.lst) THEN RemoveAt(s.lst, e.i + 1) ELSE s.lst
+    [] e.op = "setitem" -> IF InRange(s.lst, e.i) THEN [s.lst EXCEPT ![Pos(s.lst, e.i) + 1] = e.x] ELSE s.lst
+    [] e.op = "delitem" -> IF InRange(s.lst, e.i) THEN RemoveAt(s.lst, Pos(s.lst, e.i) + 1) ELSE s.lst
     [] e.op = "clear"   -> <<>>
     [] OTHER -> s.lst
 (* KF_C19_setitem_at_len: c[len(c)] = x does not raise IndexError but writes rdf:first on rdf:nil (or on the
@@ -61,10 +65,10 @@ ResVerdict(s, e) ==
   LET L == s.lst  r == e.res IN
   CASE e.op \in {"new", "append", "iadd", "clear"} -> IF r.k = "ok" THEN "ok" ELSE "ListAgrees:raised"
     [] e.op \in {"setitem", "delitem"} ->
-         IF e.i < Len(L) THEN (IF r.k = "ok" THEN "ok" ELSE "ListAgrees:raised")
+         IF InRange(L, e.i) THEN (IF r.k = "ok" THEN "ok" ELSE "ListAgrees:raised")
          ELSE IF r.k = "raise" /\ r.e = "IndexError" THEN "ok" ELSE "IndexErrorExpected"
     [] e.op = "getitem" ->
-         IF e.i < Len(L) THEN (IF r.k = "val" /\ r.v = L[e.i + 1] THEN "ok" ELSE "ListAgrees:getitem")
+         IF InRange(L, e.i) THEN (IF r.k = "val" /\ r.v = L[Pos(L, e.i) + 1] THEN "ok" ELSE "ListAgrees:getitem")
          ELSE IF r.k = "raise" /\ r.e = "IndexError" THEN "ok" ELSE "IndexErrorExpected"
     [] e.op = "index" ->
          IF Occurs(L, e.x) THEN (IF r.k = "val" /\ r.n = IndexOf(L, e.x) THEN "ok" ELSE "ListAgrees:index")
